@@ -76,7 +76,8 @@ func (wg *WeightedAuthorizationModelGraph) AddEdge(fromID, toID string, edgeType
 	if len(conditions) == 0 {
 		conditions = []string{NoCond}
 	}
-	edge := &WeightedAuthorizationModelEdge{from: fromNode, to: toNode, edgeType: edgeType, tuplesetRelation: tuplesetRelation, wildcards: nil, conditions: conditions}
+	// the edge keeps a list of its own: UpsertEdge appends to it, and the caller's slice may be shared or have spare capacity
+	edge := &WeightedAuthorizationModelEdge{from: fromNode, to: toNode, edgeType: edgeType, tuplesetRelation: tuplesetRelation, wildcards: nil, conditions: slices.Clone(conditions)}
 	wg.edges[fromID] = append(wg.edges[fromID], edge)
 }
 
